@@ -112,8 +112,8 @@ func C07_History() {
 		caches: []int{0, 10000}, fast: []bool{true, false}, thresh: []int{0}, reopenCfg: true,
 		perStep: func(h *vHist) { c07Coherent(h, "step") }}
 	if vTier() == "thorough" {
-		cfg.maxOps = 6
 		cfg.nKeys = 3
+		cfg.caches = []int{0}
 	}
 	h := vStartHist(cfg)
 	h.run()
